@@ -1,0 +1,27 @@
+//go:build verif
+
+package shell
+
+import "github.com/postalsys/muti-metroo/internal/crypto"
+
+// Read-only accessors for the verification harness (build tag verif only).
+
+// VerifStreamKeys returns, per stream id, the end-to-end session key of every
+// shell stream the handler currently tracks.
+func (h *Handler) VerifStreamKeys() map[uint64]*crypto.SessionKey {
+	out := map[uint64]*crypto.SessionKey{}
+	h.mu.RLock()
+	defer h.mu.RUnlock()
+	for id, ss := range h.streams {
+		out[id] = ss.sessionKey
+	}
+	return out
+}
+
+// VerifActiveSessions returns the executor's count of admitted sessions.
+func (h *Handler) VerifActiveSessions() int {
+	if h.executor == nil {
+		return 0
+	}
+	return h.executor.ActiveSessions()
+}
